@@ -9,9 +9,22 @@ Record case := {
 Definition xget (k : string) (v : xval) : option xval :=
   match v with XObj _ _ m => alookup k m | _ => None end.
 
+(* a key of the form "k1/k2" addresses member k2 of the object at k1 (an imported environment read through imports.<mid>) *)
+Fixpoint split_slash (s acc : string) : list string :=
+  match s with
+  | EmptyString => [acc]
+  | String c r => if Ascii.eqb c "/"%char then acc :: split_slash r EmptyString else split_slash r (acc +++ String c EmptyString)
+  end.
+
+Fixpoint xget_path (ks : list string) (v : xval) : option xval :=
+  match ks with
+  | [] => Some v
+  | k :: r => match xget k v with Some w => xget_path r w | None => None end
+  end.
+
 Definition seen_fails (root : xval) (s : string * string * iobs) : bool :=
   let '(key, _, alone) := s in
-  match xget key root, alone with
+  match xget_path (split_slash key EmptyString) root, alone with
   | Some a, IObs (Some b) _ _ => negb (xeq a b)
   | Some a, IObs None _ _ => negb (xeq a (XObj false false []))   (* an empty definition evaluates to nothing *)
   | _, _ => true
